@@ -48,6 +48,7 @@ int in_has_entry; long in_dt;            /* queue entry (id = ID) and its due ti
 long in_recent, in_birth, in_lifetime, in_retry_val, in_mpos;
 int in_getinfo_ok, in_open_fail, in_del_avail, in_exitasap, in_job_free;
 int in_numtodo;
+int stale_dying[2], stale_hiteof[2], stale_numtodo[2]; long stale_retry[2];   /* left in job slots by earlier messages */
 unsigned char rec[RL + 1]; unsigned int reclen; int in_read_err;
 
 void sym_inputs(void)
@@ -57,7 +58,7 @@ void sym_inputs(void)
 #else
   SYM(in_idle); SYM(in_has_entry); SYM(in_dt); SYM(in_recent); SYM(in_birth); SYM(in_lifetime); SYM(in_retry_val);
   SYM(in_mpos); SYM(in_getinfo_ok); SYM(in_open_fail); SYM(in_del_avail); SYM(in_exitasap); SYM(in_job_free);
-  SYM(in_numtodo); SYM_ARR(rec); SYM(reclen); SYM(in_read_err);
+  SYM(in_numtodo); SYM_ARR(stale_dying); SYM_ARR(stale_hiteof); SYM_ARR(stale_numtodo); SYM_ARR(stale_retry); SYM_ARR(rec); SYM(reclen); SYM(in_read_err);
 #endif
 }
 
@@ -131,6 +132,10 @@ void vmain(void)
   recent = in_recent; lifetime = (int) in_lifetime; flagexitasap = in_exitasap;
   fnmake_init();
   numjobs = 2; jo = jobs;
+  { int k; for (k = 0; k < 2; ++k) {   /* a free slot still holds whatever its previous message left there */
+      ASSUME(stale_dying[k] == 0 || stale_dying[k] == 1); ASSUME(stale_hiteof[k] == 0 || stale_hiteof[k] == 1);
+      ASSUME(stale_numtodo[k] >= 0 && stale_numtodo[k] < 1000);
+      jobs[k].flagdying = stale_dying[k]; jobs[k].flaghiteof = stale_hiteof[k]; jobs[k].numtodo = stale_numtodo[k]; jobs[k].retry = stale_retry[k]; } }
   jobs[0].refs = in_job_free ? 0 : 1; jobs[0].id = 5;
   q_has = in_has_entry; q_elt.id = ID; q_elt.dt = in_dt;
   if (in_idle) { pass[CH].id = 0; jobs[1].refs = in_job_free ? 0 : 1; jobs[1].id = 6; }
